@@ -205,7 +205,12 @@ def run(ctx):
                 return grid if a[1] == "eq" else (not grid)
             return None
         return d
-    n_tests = len(cq.cfg.edges_with(lambda a: decide(True)(a) is not None))
+    # branch edges whose feasibility depends on the remainder test (spelled as a comparison on a branch, or inside the
+    # predicate of `price.filter(..)` / `is_some_and(..)`): those cut under exactly one of {on grid, off grid}
+    ce_t, ce_f = CaseEval(cq, {price_p: "Some"}, [decide(True)]), CaseEval(cq, {price_p: "Some"}, [decide(False)])
+    ce_t.compute()
+    ce_f.compute()
+    n_tests = len(set(ce_t.cuts) ^ set(ce_f.cuts))
     ctx.check(n_tests >= 2, "create", "guards", ctx.loc(create), "create_order tests `limit price %% tick_size` (%d branch edges)" % n_tests,
               "create_order has no remainder test of the limit price against the book's tick size")
     summ = m.w.effects.summary(create)
